@@ -96,14 +96,10 @@ def run(tier, seed):
     gvals = []; gmeta = []
     for gi in range(max(4, n // 6)):
         recursive = (gi % 3 == 2)
-        if recursive:
-            gspec = C03.positive(gen.random_spec(rng, recursive=True, linear=rng.choice([None, True]), allow_inf=False, max_nt=2, max_rules=2, max_nodes=3, max_edges=3, max_dom=2, dup_ext=False))
-            gspec["weights"] = {el: gen.nested_map(w, lambda v: v if v <= 1 else Fraction(1, 2)) for el, w in gspec["weights"].items()}
-        else:
-            gspec = C03.positive(gen.random_spec(rng, recursive=False, allow_inf=False, max_nt=3, max_dom=2, max_nodes=4, max_edges=3))
+        gspec, gscale, keep_zero = C03.gen_spec(rng, 3 * gi + 1 if (recursive and gi % 2 == 0) else gi, recursive)
         for p in range(2):
             spec2, names, back = gen.present(gspec, rng)
-            sr = SR(["real", "log"][(gi + p) % 2], "float64", Fraction(1, 8) if recursive else Fraction(1))
+            sr = SR("real" if keep_zero else ["real", "log"][(gi + p) % 2], "float64", gscale)
             method = ["fixed-point", "newton"][(gi + p) % 2]
             try:
                 for cf, wire, meta in C03.grad_cases(spec2, sr, method, ids=["explicit", "implicit", "mixed"][p % 3], rng=rng, build_kwargs=dict(names=names)):
